@@ -3,6 +3,7 @@ package json
 import (
 	"bytes"
 
+	"github.com/go-json-experiment/json/internal/jsonflags"
 	"github.com/go-json-experiment/json/internal/zzverif/vrt"
 	"github.com/go-json-experiment/json/internal/zzverif/zzspec"
 )
@@ -177,4 +178,39 @@ func VerifC04Wide(part int, stringify bool) {
 		same = same && ok && x == y
 	}
 	vrt.Assert("C04/wide/value-restored-64bit", same)
+}
+
+type zz04Bytes struct {
+	Y [3]byte `json:"y"`
+	S []byte  `json:"s"`
+}
+
+// VerifC04BytesOptions: byte arrays and slices round-trip under the default options and
+// under each v1 representation option set INDIVIDUALLY (the same option on both sides):
+// opt 0 none; 1 FormatByteArrayAsArray; 2 FormatBytesWithLegacySemantics; 3 both.
+func VerifC04BytesOptions(opt int) {
+	v := zz04Bytes{Y: [3]byte{vrt.Byte("y0"), vrt.Byte("y1"), 7}, S: []byte{vrt.Byte("s0")}}
+	var opts []Options
+	switch opt {
+	case 1:
+		opts = []Options{jsonflags.FormatByteArrayAsArray | 1}
+	case 2:
+		opts = []Options{jsonflags.FormatBytesWithLegacySemantics | 1}
+	case 3:
+		opts = []Options{jsonflags.FormatByteArrayAsArray | 1, jsonflags.FormatBytesWithLegacySemantics | 1}
+	}
+	out, err := Marshal(&v, opts...)
+	vrt.Assert("C04/bytes/marshal-succeeds", err == nil)
+	if err != nil {
+		return
+	}
+	vrt.Observe("out", out)
+	var w zz04Bytes
+	err = Unmarshal(out, &w, opts...)
+	vrt.Cover("decoded")
+	vrt.Assert("C04/bytes/unmarshal-accepts-own-output", err == nil)
+	if err != nil {
+		return
+	}
+	vrt.Assert("C04/bytes/value-restored", v.Y == w.Y && bytes.Equal(v.S, w.S))
 }
